@@ -594,5 +594,8 @@ func stress() {
 		}
 		run.Count("requests", 24*300)
 		run.Distinct(vk.Hash(r))
+		if r < 2 {
+			run.Sample(map[string]interface{}{"round": r, "goroutines": 24, "requests_each": 300, "probe_num": r % 2})
+		}
 	}
 }
